@@ -9,6 +9,7 @@ from pyfront import (Repo, CFG, canon, guard_literals, attr_accesses, literals,
                      qualname, calls_in, single_defs, TK, _Subst)
 from pyutil import params, deep_subst, find_calls, lit_fmt, rel, name_of, owners
 from dtable import Walker
+import exprnf as X
 from consteval import Ev, fold, Unknown, Raised
 
 EXPLANATION = (
@@ -34,7 +35,7 @@ def branch_subst(stmts):
     return {k: v for k, v in val.items() if cnt[k] == 1}
 
 
-def r1_counter(L, repo):
+def r1_counter(L, repo, force_shape=False):
     names = ("burst_drop_amount", "burst_drop_period")
     allowed = {"FakeTRX.__init__", "FakeTRX.ctrl_cmd_handler", "FakeTRX.sim_burst_drop"}
     n = 0
@@ -70,13 +71,44 @@ def r1_counter(L, repo):
         if isinstance(st, ast.Expr) and isinstance(st.value, ast.Constant):
             return None
         return ("other", canon(st)[:50])
+    # decided by folding sim_burst_drop over boundary witnesses of its state (amount >= 0, period >= 1 - what the
+    # FAKE_DROP handler can store, see R2) and frame numbers: drop iff amount > 0 and fn % period == 0, and the
+    # amount goes down by exactly one per drop
+    folded, bad, nw = True, [], 0
+    for amt in (() if force_shape else (0, 1, 2, 7)):
+        for per in (1, 2, 51):
+            for fnv in (0, 1, 2, 50, 51, 102, 2715647):
+                e_ = Ev(repo, repo.mod("fake_trx"), env={"self.burst_drop_amount": amt, "self.burst_drop_period": per, "%s.fn" % M: fnv},
+                        self_cls=repo.need_class("fake_trx", "FakeTRX"))
+                try:
+                    r_ = e_.run_block(fd.body)
+                except (Unknown, Raised):
+                    folded = False
+                    break
+                nw += 1
+                got_ = (bool(r_[1]) if isinstance(r_, tuple) else False, e_.env.get("self.burst_drop_amount"), e_.env.get("self.burst_drop_period"))
+                drop_ = amt > 0 and fnv % per == 0
+                want_ = (drop_, amt - 1 if drop_ else amt, per)
+                if got_ != want_:
+                    bad.append({"amount": amt, "period": per, "fn": fnv, "(drop, amount', period')": got_, "expected": want_})
+            if not folded:
+                break
+        if not folded:
+            break
+    if force_shape:
+        folded = False
+    if folded:
+        L.ob("C18.R1", F, fn, "sim_burst_drop drops iff amount > 0 and fn mod period == 0 and then decrements the amount by one (folded for "
+             "%d witnesses)" % nw, [], bad[:3], not bad, fd.lineno)
+        L.floor("C18.R1", "sim_burst_drop witnesses folded", nw, 80)
     W = Walker(ev)
-    atoms, rows = W.table(fd.body)
+    atoms, rows = W.table(fd.body) if not folded else ([], {})
     A0 = "0 == self.burst_drop_amount"
     A1 = "0 == %s.fn %% self.burst_drop_period" % M
-    L.require("C18.R1", F, fn, "atoms of the drop decision", sorted([A0, A1]), sorted(atoms))
+    if not folded:
+        L.require("C18.R1", F, fn, "atoms of the drop decision", sorted([A0, A1]), sorted(atoms))
     if sorted(atoms) != sorted([A0, A1]):
-        return
+        rows = {}
     for vals, evs in sorted(rows.items()):
         a = dict(zip(atoms, vals))
         if not a[A0] and a[A1]:
@@ -216,42 +248,71 @@ def r3_suppression(L, repo):
             nope, calls = drop, 1
         else:
             nope, calls = True, 0
-        want = []
+        # what reaches the recipient: final value of every field (assignments and in-place corrections composed,
+        # compared as linear normal forms) and the calls made, whatever way the statements are split or merged
+        DELIV = ("self.data_if.send_msg(%s)" % MSG, "Transceiver.handle_data_msg(self, %s)" % MSG,
+                 "super().handle_data_msg(%s)" % MSG)
+        fields, calls_, others, late = {}, [], [], False
+        delivered = False
+        for e_ in evs:
+            if e_[0] == "set":
+                if delivered:
+                    late = True
+                fields[e_[1]] = e_[2]
+            elif e_[0] == "aug":
+                if delivered:
+                    late = True
+                opsym = {"Sub": "-", "Add": "+", "Mult": "*"}.get(e_[2])
+                if opsym is None or e_[1] not in fields:
+                    others.append(e_)
+                else:
+                    fields[e_[1]] = "(%s) %s (%s)" % (fields[e_[1]], opsym, e_[3])
+            elif e_[0] == "call":
+                calls_.append(e_[1])
+                if e_[1] in DELIV:
+                    delivered = True
+            elif e_[0] == "ret":
+                pass
+            else:
+                others.append(e_)
+
+        def lin_of(txt):
+            try:
+                return X.linear(X.PyLower().lower(ast.parse(txt, mode="eval").body))
+            except (AnalysisError, SyntaxError):
+                return ("text", txt)
+        if others:
+            raise AnalysisError("handle_data_msg: statement the suppression table cannot classify: %s" % (others[0],))
+        got = {"fields": dict(fields), "calls": list(calls_), "drop_simulation_calls": state["drop_calls"], "set after delivery": late}
         if nope:
             if v0:
-                want.append(("ret",))
+                want = {"calls": [], "note": "nothing is sent"}
+                ok = not [c_ for c_ in calls_ if c_ in DELIV]
             else:
-                want += [("set", "burst", "None"), ("set", "toa256", "self.TOA256_NOISE_DEFAULT"),
-                         ("set", "rssi", "self.RSSI_NOISE_DEFAULT"), ("set", "ci", "self.CI_NOISE_DEFAULT"),
-                         ("call", "self.data_if.send_msg(%s)" % MSG), ("ret",)]
+                want = {"fields": {"burst": "None", "toa256": "self.TOA256_NOISE_DEFAULT", "rssi": "self.RSSI_NOISE_DEFAULT",
+                                   "ci": "self.CI_NOISE_DEFAULT"}, "calls": [DELIV[0]]}
+                ok = all(fields.get(k_) == v_ for k_, v_ in want["fields"].items()) and \
+                    [c_ for c_ in calls_ if c_ in DELIV] == [DELIV[0]] and not late
         else:
-            want.append(("set", "toa256", "self.toa256"))
-            want.append(("set", "rssi", None if not a[A["fake"]] else "self.rssi"))
-            if not v0:
-                want.append(("call", "self._handle_data_msg_v1(%s, %s)" % (SMSG, MSG)))
-            if not a[A["ta0"]]:
-                want.append(("aug", "toa256", "Sub", None))
-            want.append(("call", "Transceiver.handle_data_msg(self, %s)" % MSG))
-
-        def match(w, e):
-            return len(w) == len(e) and all(x is None or x == y for x, y in zip(w, e))
-        got = list(evs)
-        ok = len(got) == len(want)
-        if ok:
-            if nope and not v0:
-                head = len(want) - 6
-                ok = all(match(w, e) for w, e in zip(want[:head], got[:head])) and \
-                    sorted(map(repr, want[head:head + 4])) == sorted(map(repr, got[head:head + 4])) and \
-                    want[-2:] == got[-2:]
-            else:
-                ok = all(match(w, e) for w, e in zip(want, got))
+            toa = lin_of(fields.get("toa256", "None"))
+            want_toa = ({"self.toa256": 1, "%s.ta" % SRC: -256}, 0)
+            toa_ok = toa == want_toa or (a[A["ta0"]] and toa == ({"self.toa256": 1}, 0))
+            rssi_ok = (fields.get("rssi") == "self.rssi") if a[A["fake"]] else (fields.get("rssi") not in (None, "None", "self.rssi"))
+            v1call = "self._handle_data_msg_v1(%s, %s)" % (SMSG, MSG)
+            deliv = [c_ for c_ in calls_ if c_ in DELIV]
+            calls_ok = len(deliv) == 1 and deliv[0] in DELIV[1:] and calls_ and calls_[-1] == deliv[0] and \
+                ((v1call in calls_) == (not v0)) and all(c_ in DELIV or c_ == v1call for c_ in calls_)
+            want = {"fields": {"toa256": "self.toa256 - 256 * %s.ta" % SRC, "rssi": "self.rssi" if a[A["fake"]] else "<the formula>"},
+                    "calls": ([v1call] if not v0 else []) + ["Transceiver.handle_data_msg(self, %s)" % MSG]}
+            ok = toa_ok and rssi_ok and calls_ok and not late
         ok = ok and state["drop_calls"] == calls
         nrows += 1
         extra = "".join(" %s=%d" % (u[:30], a[u]) for u in unknown)
+        want["drop_simulation_calls"] = calls
         L.ob("C18.R3", F, fn,
              "row rf_muted=%d already_nope=%d drop=%d ver0=%d fake_rssi=%d ta_zero=%d%s" % (
                  mute, nope0, drop, v0, a[A["fake"]], a[A["ta0"]], extra),
-             {"events": want, "drop_simulation_calls": calls}, {"events": got, "drop_simulation_calls": state["drop_calls"]}, ok, fd.lineno)
+             want, got, ok, fd.lineno)
     L.floor("C18.R3", "rows of the suppression decision table", nrows, 64)
     # sender side: muted sender strips the burst, trans() turns that into NOPE
     ci, fm = repo.need_method("burst_fwd", "BurstForwarder", "forward_msg")
@@ -341,6 +402,7 @@ def run(L, tier):
     repo = Repo(L.repo)
     L.unit(F)
     L.stage(r1_counter, L, repo)
+    L.structural("C18.R1 decision table of sim_burst_drop over its two branch atoms", r1_counter, L, repo, True)
     L.stage(r2_fake_drop, L, repo)
     L.stage(r3_suppression, L, repo)
     L.stage(r4_nope_encodable, L, repo)
